@@ -52,10 +52,18 @@ func allFamilies(tier string) []*goprog.Family {
 	}
 }
 
+func withTop() bool {
+	only := os.Getenv("C01_ONLY")
+	return only == "" || strings.Contains(only, "F5")
+}
+
 func spaces(tier string) []kit.Space {
 	var sps []kit.Space
 	for _, f := range families(tier) {
 		sps = append(sps, f.Space())
+	}
+	if withTop() {
+		sps = append(sps, f5TopSpace())
 	}
 	return sps
 }
@@ -64,13 +72,15 @@ func main() {
 	// `c01 prefill <tier>`: warm the gc cache (used by setup.sh)
 	if len(os.Args) >= 2 && os.Args[1] == "prefill" {
 		tier := kit.Tier(os.Args[2:])
-		for _, f := range families(tier) {
-			if err := f.Prefill(runtime.NumCPU()); err != nil {
-				fmt.Fprintln(os.Stderr, "prefill", f.Name, ":", err)
-				os.Exit(2)
-			}
-			fmt.Printf("prefilled %s (%d cases)\n", f.Name, f.Size)
+		if err := goprog.PrefillAll(families(tier), runtime.NumCPU()); err != nil {
+			fmt.Fprintln(os.Stderr, "prefill:", err)
+			os.Exit(2)
 		}
+		if err := f5TopPrefill(runtime.NumCPU()); err != nil {
+			fmt.Fprintln(os.Stderr, "prefill:", err)
+			os.Exit(2)
+		}
+		fmt.Println("gc cache ready for C01", tier)
 		return
 	}
 	// The master process (not a worker, not a replay) first makes sure that gc's
@@ -87,9 +97,13 @@ func main() {
 	}
 	if master {
 		start := time.Now()
-		for _, f := range families(kit.Tier(os.Args[1:])) {
-			if err := f.Prefill(runtime.NumCPU()); err != nil {
-				fmt.Fprintln(os.Stderr, "HARNESS-ERROR: gc oracle:", f.Name, ":", err)
+		if err := goprog.PrefillAll(families(kit.Tier(os.Args[1:])), runtime.NumCPU()); err != nil {
+			fmt.Fprintln(os.Stderr, "HARNESS-ERROR: gc oracle:", err)
+			os.Exit(2)
+		}
+		if withTop() {
+			if err := f5TopPrefill(runtime.NumCPU()); err != nil {
+				fmt.Fprintln(os.Stderr, "HARNESS-ERROR: gc oracle:", err)
 				os.Exit(2)
 			}
 		}
